@@ -80,7 +80,7 @@ class C07(core.Check):
     def generate(self):
         rng = self.rng
         cases = []
-        n = 90 if self.tier == 'quick' else 2000
+        n = 240 if self.tier == 'quick' else 3000
         for i in range(n):
             flags = [bool((i >> b) & 1) for b in range(4)] if i < 16 else [rng.random() < 0.6 for _ in range(4)]
             toks = c06.gen_doc(rng, 14 if self.tier == 'quick' else 40, multi=rng.random() < 0.1)
@@ -94,10 +94,15 @@ class C07(core.Check):
                 edits.append(e)
             attrs = rng.sample(ATTRS, rng.choice([0, 0, 1, 2]))
             reconf = [gen_reconfig(rng) for _ in range(rng.choice([0, 0, 1, 2]))]
+            if rng.random() < 0.25:
+                reconf.append(['reindex', [rng.choice([None, True]), rng.choice([None, True]), rng.choice([None, True, False]), rng.choice([None, True, False])]])
             queries = []
             for _ in range(10):
                 queries.append(dict(q=gen_iquery(rng), sub=rng.random() < 0.35, sel=rng.random()))
-            final = bool(edits or reconf) or rng.random() < 0.5
+            # the closing reindex() may be left out when the history is already synchronised: nothing changed since the parse,
+            # or the last reconfiguration step was itself a reindex(...)
+            synced = (not edits and not reconf) or (bool(reconf) and reconf[-1][0] == 'reindex')
+            final = (not synced) or rng.random() < 0.4
             cases.append(dict(flags=flags, attr_indexes=attrs, first=first, toks=toks, edits=edits, reconf=reconf, final=final, queries=queries))
         self.stats.update(histories=n)
         return cases
